@@ -343,10 +343,11 @@ def boot(w, cmd, d, a):
         beh = w.newpin_behaviour
         if not w.unlocked:
             raise SW(0x6BF1)
-        if beh == "refuse":
+        if beh in ("refuse", "refuse-odd"):
             if cmd == 0x08:
-                raise SW(0x69A0)
-            return bytes([0x80, cmd, 0])
+                raise SW(0x69A0 if beh == "refuse" else 0x6BF2)
+            # SGX answers in band: 1 = changed; anything else = not changed
+            return bytes([0x80, cmd, 0 if beh == "refuse" else 0x55])
         if beh == "swerr":
             raise SW(0x6A99)
         if beh == "comm":
